@@ -15,6 +15,7 @@ inline void sort_unique(std::vector<std::uint64_t>& v) {
 }
 
 inline std::uint64_t low_mask(unsigned bits) { return bits >= 64 ? ~0ull : ((1ull << bits) - 1); }
+template<class S> inline unsigned nbits() { return 8 * sizeof(S); }
 
 // K(b): core alphabet, about 40 values per width
 inline std::vector<std::uint64_t> alphabet_K(unsigned bits) {
